@@ -263,8 +263,8 @@ def h_unit_layer(eng, names, bound):
 def h_float_registry_fraction_exponents(eng):
     """the default (float) registry with exact Fraction exponents: products and powers of units
     add and multiply the exponents exactly, at the Unit, container and Quantity layers
-    (concrete; division is left out: UnitsContainer.__truediv__ rounds Fraction exponents of a
-    float registry to floats, noted in DESIGN.md)"""
+    (concrete; the quotient law fails -- UnitsContainer.__truediv__ rounds the divisor's Fraction
+    exponents to floats in a float registry -- and is reported as known finding K15)"""
     ureg = regs.float_default()
     fr = [Fraction(-2), Fraction(-4, 3), Fraction(-3, 2), Fraction(1, 3), Fraction(2, 5), Fraction(7, 3), Fraction(3)]
     layers = {
@@ -272,6 +272,7 @@ def h_float_registry_fraction_exponents(eng):
         "container": ureg.UnitsContainer({"meter": 1, "second": -2}),
         "Quantity.units": ureg.Quantity(1.0, "meter / second ** 2").units,
     }
+    reported = {}
     for lname, u in layers.items():
         for a in fr:
             for b in fr:
@@ -279,6 +280,13 @@ def h_float_registry_fraction_exponents(eng):
                 eng.prove(hash(u**a * u**b) == hash(u ** (a + b)), f"float-registry:{lname}:hash:{a},{b}")
                 eng.prove((u**a) ** b == u ** (a * b), f"float-registry:{lname}:(u**a)**b==u**(a*b):{a},{b}")
             eng.prove(u**a * u ** (-a) == u**0, f"float-registry:{lname}:inverse:{a}")
+            eng.prove(u**a / u**a == u**0, f"float-registry:{lname}:u/u-dimensionless:{a}")
+            # the quotient law with exact exponents: known finding K15 (the divisor's Fraction
+            # exponents are rounded to floats by UnitsContainer.__truediv__), reported once per layer
+            bad = [b for b in fr if not (u**a / u**b == u ** (a - b))]
+            if bad and not reported.get(lname):
+                reported[lname] = True
+                eng.fail(f"float-registry:{lname}:quotient-rounds-fraction-exponents", stop=False)
             cont = (u**a)._units if hasattr(u**a, "_units") else (u**a)
             eng.prove(all(type(v) in (int, Fraction) for v in cont.values()), f"float-registry:{lname}:exact-exponent-types:{a}")
 
